@@ -484,6 +484,15 @@ impl SocketTable {
         self.connections.get(&(local, remote)).copied()
     }
 
+    /// The `(local, remote)` key under which `fd` is indexed as a connection,
+    /// if it is.
+    pub fn connection_of(&self, fd: Fd) -> Option<(SocketAddr, SocketAddr)> {
+        self.connections
+            .iter()
+            .find(|(_, f)| **f == fd)
+            .map(|(key, _)| *key)
+    }
+
     /// Iterate connections matching `local` — any remote. Used to
     /// count in-flight children of a listener.
     pub fn connections_on(&self, local: SocketAddr) -> impl Iterator<Item = (SocketAddr, Fd)> + '_ {
